@@ -68,6 +68,9 @@ func (e ErrTooManyPages) Error() string {
 	return fmt.Sprintf("page loop exceeded its progress bound: page %d > %d", e.Page, e.Bound)
 }
 
+// VerifClause makes the engine report this sentinel as clause nonterminating-pages.
+func (e ErrTooManyPages) VerifClause() string { return "nonterminating-pages" }
+
 var pageRe = regexp.MustCompile(`Creating layout - Page (\d+)`)
 
 type progressWriter struct{ bound, max int }
